@@ -166,3 +166,43 @@ Proof.
   eexists. split; vm_compute; reflexivity.
 Qed.
 
+(* the hypotheses of C15_roundtrip are satisfiable on a value with a union whose branch is a named type reached by
+   reference, recursion three deep and a float leaf: the typing derivation, explicitly (one level per step) *)
+Definition tS : schema := SArray (SUnion [SNull; SRef (k "ns.Node"); SFloat]).
+Definition ex_s : aval :=
+  AArray [AUnion 1 (ARecord [AInt 1; AUnion 1 (ARecord [AInt 2; AUnion 1 (ARecord [AInt 3; AUnion 0 ANull])])]); AUnion 2 (AFloat 0x3F8CCCCD)].
+Ltac ty_node :=
+  lazymatch goal with
+  | |- typedn ?n ?e ?s ?a =>
+      let s' := eval hnf in s in let a' := eval hnf in a in
+      change (typedn n e s' a');
+      lazymatch s' with
+      | SNull => apply ty_null | SBool => apply ty_bool | SFloat => apply ty_float | SDouble => apply ty_double
+      | SLong => apply ty_long | SInt => apply ty_int | SBytes => apply ty_bytes | SString => apply ty_string
+      | SFixed _ _ _ => apply ty_fixed | SEnum _ _ _ _ => apply ty_enum
+      | SArray _ => apply ty_array | SMap _ => apply ty_map | SRecord _ _ _ => apply ty_record
+      | SUnion _ => eapply ty_union; [| vm_compute; reflexivity |]
+      | SRef _ => eapply ty_ref; [vm_compute; reflexivity |]
+      | SAnnot _ _ => apply ty_annot
+      end
+  end.
+Ltac ty1 :=
+  first [ ty_node
+        | match goal with
+          | |- Forall _ [] => constructor
+          | |- Forall _ (_ :: _) => constructor
+          | |- Forall2 _ [] [] => constructor
+          | |- Forall2 _ (_ :: _) (_ :: _) => constructor
+          | |- in_int64 _ => unfold in_int64; lia
+          | |- in_int32 _ => unfold in_int32; lia
+          | |- _ <= _ < _ => lia
+          | |- _ < _ => vm_compute; reflexivity
+          end ].
+Example C15_example_typed : typedn 12 ex_env' tS ex_s.
+Proof. repeat ty1. Qed.
+
+Example C15_example_roundtrip : exists j, json_enc ex_env' tS ex_s = Some j /\ json_dec 12 ex_env' tS j = Ok ex_s.
+Proof.
+  apply (C15_roundtrip 12 ex_env' tS ex_s);
+    [vm_compute; reflexivity|vm_compute; reflexivity|exact C15_example_typed|vm_compute; reflexivity|apply le_n].
+Qed.
